@@ -496,8 +496,20 @@ def ChildM.isRevoked (c : ChildM) (key : Nat) : Bool :=
 
 /-- The decision as the code takes it (since fix 43d7eca0 of finding F-C03-1): the child's class
 name is translated first, then the class is looked up; (since fix 7be8c4c6 of F-C02-2) a key this
-CA revoked itself is confirmed, only a key the child never used is an error. -/
+CA revoked itself is confirmed, only a key the child never used is an error; (since fix 239f0a59
+of F-C03-3) the revocation is executed only when the key is in use in THE CLASS THE REQUEST NAMES -
+the class recorded in `used_keys` - and refused when it is in use in another class. -/
 def processChildRevokeKey (resources : List Nat) (c : ChildM) (childRcn key : Nat) : RevokeOut :=
+  if c.parentNameForRcn childRcn ∉ resources then .ignored
+  else
+    match get? c.usedKeys key with
+    | some (some r) => if r = c.parentNameForRcn childRcn then .revoked r key else .error
+    | some none => .alreadyRevoked
+    | none => .error
+
+/-- Counter-model pinned to the behaviour before fix 239f0a59 (F-C03-3): a key in use in ANY class
+was "revoked" in the class the request names. -/
+def pinnedRevokeAnyClass (resources : List Nat) (c : ChildM) (childRcn key : Nat) : RevokeOut :=
   if c.parentNameForRcn childRcn ∉ resources then .ignored
   else if !c.isIssued key then (if c.isRevoked key then .alreadyRevoked else .error)
   else .revoked (c.parentNameForRcn childRcn) key
